@@ -17,6 +17,7 @@ ASSUMPTIONS = ["handlers are registered with the decorator forms @family.registe
 def run(project, rep):
     rep.run(T.t_r1, project, rep)
     rep.run(T.t_r2, project, rep)
+    rep.run(T.t_r11_none_only_for_the_empty_text, project, rep)
     rep.run(T.t_r3, project, rep)
     rep.run(T.t_r4, project, rep)
     rep.run(T.t_r4b_guards_constant, project, rep)
